@@ -5,6 +5,12 @@ replaced by havoc tables in which any name may have been left behind by an earli
 value of a forked type; the outcome of loading a script on every such path is compared with the outcome from empty
 tables.  A differing path is replayed as a real two-load history against a pristine process.
 Second part: returned programs share no mutable container with the tables or with each other (identity walk).
+Third part (twin loads): without naming any state - a twin of the script (same skeleton, other symbolic values; optionally
+failing at its end; optionally every concrete literal shifted by one) is loaded first, then the script, in one process
+state; for all values of both, the second outcome must be the outcome of the script alone.  Each pair is also run
+natively in freshly forked interpreters (identities and hashes are outside the proxies' reach).
+Fourth part: concrete histories over real files (include chains rewritten, modification times preserved or going
+backwards, same relative path in two directories).
 """
 import ast
 import os
@@ -184,6 +190,14 @@ EXTRA = [
     ["name v1", "version 1.0", "", "float x = %(f)s", "int n = %(m)s", "Dgate(x, k=x*2) | n", "Vac | [n, %(m)s]"],
     ["name v2", "version 1.0", "", "Dgate({a}, phi={b}) | %(m)s", "float y = {a}*2", "Sgate(y) | %(m)s"],
     ["name v3", "version 1.0", "", "for int i in [%(m)s, %(m)s]", "    Vac | i", "Dgate(%(f)s) | %(m)s"],
+    # many arrays, all indexed; register transforms with negative integer coefficients and exponents
+    ["name a5", "version 1.0", "", "float array A =", "    %(f)s, %(f)s", "float array B =", "    %(f)s, %(f)s", "float array C =", "    %(f)s, %(f)s", "float array D =", "    %(f)s, %(f)s",
+     "float array E =", "    %(f)s, %(f)s", "float x = A[0]+B[1]", "Dgate(A[1], B[0]) | %(m)s", "Sgate(C[0]+D[1], k=E[0]) | %(m)s", "Rgate(x, E[1]*C[1]) | %(m)s"],
+    ["name a6", "version 1.0", ""] + sum(([("float array A%d[2, 2] =" % k), "    %(f)s, %(f)s", "    %(f)s, %(f)s", "float x%d = A%d[0]" % (k, k), "float y%d = A%d[3]" % (k, k)] for k in range(6)), []) + [
+        "Dgate(x0, y1) | %(m)s", "Sgate(x2*y3, k=A4[2]) | %(m)s", "Rgate(A5[1]+x5, y4) | %(m)s"],
+    ["name a12", "version 1.0", ""] + sum(([("float array A%d =" % k), "    %(f)s, %(f)s", "float x%d = A%d[1]" % (k, k)] for k in range(12)), []) + ["Dgate(x0, x11) | %(m)s"],
+    ["name r1", "version 1.0", "", "MeasureX | 0", "MeasureP | 1", "Dgate(-2*q0) | %(m)s", "Sgate(q0-2*q1, k=1/q1**2) | %(m)s", "Zgate(-q1) | %(m)s"],
+    ["name r2", "version 1.0", "", "MeasureX | 0", "Dgate(-1*q0, %(f)s) | %(m)s", "Dgate(3*q0-1) | %(m)s"],
 ]
 
 
@@ -192,6 +206,9 @@ def gen(spec, lv):
         return c11.gen(spec[1], lv)
     if spec[0] == "c02":
         return c02.gen(spec[1], lv)
+    if spec[0] in ("c05", "c06", "c08", "c15"):
+        import importlib
+        return importlib.import_module("bbverif.checks." + spec[0]).gen(spec[1], lv)
     modes = []
     sub = c11.Sub(lv, modes)
     lines = [l % sub if "%(" in l else l for l in EXTRA[spec[1]]]
@@ -423,6 +440,269 @@ def replay(spec, vals, pre):
     return 1
 
 
+# ----------------------------------------------------------------------------- twin loads: state nobody knows about
+# Whatever process-wide state the code keeps (the two tables, or any table / memo added later), a load must not see what
+# an earlier load left there.  Without naming the state: load a *twin* A of the script (the same skeleton with other
+# symbolic values; optionally failing at its end; optionally with every concrete literal shifted by one), then the
+# script B, in one process state - B's outcome must be what B gives alone, for all values of both.
+FAIL_LINE = "Vac | name_that_is_not_defined_anywhere"
+TWIN_MODES = ["same", "fails", "lit-1", "lit+1 fails"]
+
+
+def literal_indices(text, lang, is_leaf):
+    """indices (in the token sequence) of INT / FLOAT literals that are concrete in the skeleton"""
+    return [i for i, (nm, tx, ln, col) in enumerate(lang.real_tokens_pos(text)) if nm in ("INT", "FLOAT") and not is_leaf(tx)]
+
+
+def shift_literals(text, lang, idxs, delta):
+    toks = lang.real_tokens_pos(text)
+    lines = text.split("\n")
+    for i in sorted(idxs, reverse=True):
+        if i >= len(toks):
+            continue
+        nm, tx, ln, col = toks[i]
+        if nm == "INT":
+            n = int(tx)
+            new = str(n + delta if n + delta >= 0 else n + 2)
+        elif nm == "FLOAT":
+            x = float(tx)
+            new = repr(x + delta if x + delta >= 0 else x + 2.0)
+        else:
+            continue
+        L = lines[ln - 1]
+        lines[ln - 1] = L[:col] + new + L[col + len(tx):]
+    return "\n".join(lines)
+
+
+def twin_texts(spec, lv, mode, lang, idxs=None):
+    """(A, B, pre-conditions, literal indices): B is the script under test, A its twin loaded before it"""
+    gB = gen(spec, lv)
+    gA = gen(spec, lv)
+    A, B = gA["text"], gB["text"]
+    if idxs is None:
+        idxs = literal_indices(A, lang, (lambda tx: lv.reg.lookup(tx) is not None) if lv.symbolic else (lambda tx: False))
+    if "lit" in mode:
+        A = shift_literals(A, lang, idxs, -1 if "lit-1" in mode else 1)
+    if "fails" in mode:
+        A = A + FAIL_LINE + "\n"
+    return A, B, list(gA.get("pre", [])) + list(gB.get("pre", [])), idxs
+
+
+def run_twin(arg):
+    spec, mode = arg
+    k0 = stubs.RangeBound.K
+    stubs.RangeBound.K = 2      # two loads per path: trip counts <= 2 each
+    try:
+        return _run_twin(spec, mode)
+    finally:
+        stubs.RangeBound.K = k0
+
+
+def _run_twin(spec, mode):
+    w = _script.winit()
+    bb = w["bb"]
+    out = {"spec": ("twin", spec, mode), "result": "holds", "paths": 0, "stats": None, "why": None, "cex": None, "funcs": [], "reach": 0}
+    lv = skel.Leaves()
+    A, B, pre, idxs = twin_texts(spec, lv, mode, w["lang"])
+    out["text"] = "--- first (%s) ---\n%s--- then ---\n%s" % (mode, A, B)
+    nB = len(lv.vars) // 2
+
+    def explore(with_twin):
+        E = engine.Engine(max_paths=900)
+        E.reset_hooks.append(lambda: install_tables(False))
+        E.base = list(lv.cons) + pre
+
+        def run():
+            if with_twin:
+                try:
+                    bb.loads(A)
+                except Exception:  # noqa  (engine aborts are BaseException)
+                    pass
+            return bb.loads(B)
+
+        return E, E.explore(run)
+
+    try:
+        with U.coverage(out["funcs"]):
+            E0, pristine = explore(False)
+            E1, twin = explore(True)
+    except engine.PathLimit as e:
+        out.update(result="inconclusive", why=str(e))
+        return out
+    finally:
+        install_tables(False)
+    out["paths"] = len(twin) + len(pristine)
+    out["stats"] = {k: E0.stats.get(k, 0) + E1.stats.get(k, 0) for k in E1.stats}
+    for ph in twin:
+        if ph.kind == "abort":
+            out.update(result="inconclusive", why="abort: %s" % ph.value)
+            continue
+        oh = outcome(ph)
+        for pp in pristine:
+            if pp.kind == "abort":
+                out.update(result="inconclusive", why="abort (alone): %s" % pp.value)
+                continue
+            r0, _ = E1.query(ph, z3.BoolVal(True), extra=pp.pc)
+            if r0 == "unsat":
+                continue
+            if r0 != "sat":
+                out.update(result="inconclusive", why="solver %s" % r0)
+                continue
+            out["reach"] += 1
+            op = outcome(pp)
+            if oh[0] != op[0]:
+                diffs = [("outcome kind: %s after the twin, %s alone" % (_d(oh), _d(op)), True)]
+            elif oh[0] == "exception":
+                diffs = [] if oh[1:] == op[1:] else [("exception: %s after the twin, %s alone" % (_d(oh), _d(op)), True)]
+            else:
+                diffs = _snap.diff(oh[1], op[1])
+            for where, cond in diffs:
+                c = z3.BoolVal(True) if cond is True else cond
+                r, mdl = E1.query(ph, c, extra=pp.pc)
+                if r == "unsat":
+                    continue
+                if r != "sat":
+                    out.update(result="inconclusive", why="solver %s" % r)
+                    continue
+                vals = lv.model_values(mdl)
+                rr = concrete_twin(spec, mode, vals, idxs)
+                if isinstance(rr, dict):
+                    rr["symbolic_what"] = where
+                    out.update(result="violation", cex=rr)
+                    return out
+                out.setdefault("unconfirmed", []).append({"what": where, "text": out["text"]})
+    # native run of the same pair: done in batches by main() (fresh forked interpreter for each side, see forked_outcomes)
+    out["native"] = (spec, mode, [(0.5 + i if k == "float" else 3 + i) for i, (_, k, _) in enumerate(lv.vars)], idxs)
+    return out
+
+
+def native_twins(results):
+    """one native run per twin case (batched): state the proxies do not reach - object identities, hashes"""
+    from ..atnsmt import lang as langmod
+    lang = _script._W.get("lang") or langmod.Lang()
+    todo = [r for r in results if r.get("native") and r["result"] == "holds"]
+    jobs = []
+    for r in todo:
+        spec, mode, vals, idxs = r["native"]
+        A, B, _, _ = twin_texts(spec, skel.Leaves(values=vals), mode, lang, idxs)
+        jobs += [[A, B], [B]]
+    n = 16
+    chunks = [jobs[2 * k::2 * n] for k in range(n)]
+    # keep pairs together: chunk k takes pairs k, k+n, ...
+    chunks = [sum(([jobs[2 * i], jobs[2 * i + 1]] for i in range(k, len(todo), n)), []) for k in range(n)]
+    outs = common.pmap(_fork_chunk, chunks)
+    for k in range(n):
+        for j, i in enumerate(range(k, len(todo), n)):
+            r = todo[i]
+            o = outs[k]
+            if o is None or 2 * j + 1 >= len(o) or o[2 * j] is None or o[2 * j + 1] is None:
+                continue
+            r["validated"] = 1
+            if o[2 * j][-1] != o[2 * j + 1][-1]:
+                spec, mode, vals, idxs = r["native"]
+                rr = concrete_twin(spec, mode, vals, idxs)      # once more, on its own
+                if isinstance(rr, dict):
+                    rr["symbolic_what"] = "native twin history differs although the symbolic twin run agrees (state the proxies do not reach: object identities, hashes)"
+                    r.update(result="violation", cex=rr)
+    for r in results:
+        r.pop("native", None)
+
+
+def _fork_chunk(jobs):
+    try:
+        return forked_outcomes(jobs) if jobs else []
+    except Exception:  # noqa
+        return None
+
+
+FORK_WORKER = r"""
+import sys, os, json
+sys.path.insert(0, %(root)r)
+import blackbird
+from bbverif.checks import _snap
+jobs = json.loads(sys.stdin.read())
+res = []
+for steps in jobs:
+    r, wfd = os.pipe()
+    pid = os.fork()
+    if pid == 0:
+        os.close(r)
+        out = []
+        for t in steps:
+            try:
+                out.append(["program", repr(_snap.program(blackbird.loads(t)))])
+            except Exception as e:
+                out.append(["exception", type(e).__name__, str(e)])
+        os.write(wfd, json.dumps(out).encode())
+        os._exit(0)
+    os.close(wfd)
+    buf = b""
+    while True:
+        c = os.read(r, 65536)
+        if not c:
+            break
+        buf += c
+    os.close(r)
+    os.waitpid(pid, 0)
+    res.append(json.loads(buf.decode() or "null"))
+print("RESULT " + json.dumps(res))
+"""
+
+
+def forked_outcomes(jobs):
+    """jobs: list of lists of script texts; each list is loaded in order in its own freshly forked interpreter (imports
+    done, nothing loaded yet); returns the outcomes of every load of every list"""
+    import json
+    import subprocess
+    src = FORK_WORKER % {"root": common.ROOT}
+    p = subprocess.run([common.PY, "-W", "ignore", "-c", src], input=json.dumps(jobs), capture_output=True, text=True, timeout=600)
+    for line in p.stdout.split("\n"):
+        if line.startswith("RESULT "):
+            return json.loads(line[7:])
+    raise RuntimeError("fork worker failed: %s" % p.stderr[-400:])
+
+
+def concrete_twin(spec, mode, vals, idxs):
+    lv = skel.Leaves(values=vals)
+    from ..atnsmt import lang as langmod
+    lang = _script._W.get("lang") or langmod.Lang()
+    A, B, _, _ = twin_texts(spec, lv, mode, lang, idxs)
+    try:
+        hist, alone = forked_outcomes([[A, B], [B]])
+    except Exception as e:  # noqa
+        return None
+    if hist is None or alone is None or hist[-1] == alone[-1]:
+        return None
+    return {"text": "--- first (%s) ---\n%s--- then ---\n%s" % (mode, A, B), "values": vals, "pre": [mode, idxs],
+            "what": "outcome of a load depends on an earlier load of a twin script",
+            "observed": "after the twin: %s" % str(hist[-1])[:400], "expected": "alone in a fresh process: %s" % str(alone[-1])[:400]}
+
+
+REPLAY_TWIN = """#!/usr/bin/env python
+# C12 replay: load the twin script, then the script, in one fresh process; compare with the script loaded alone in a fresh process
+import sys; sys.path.insert(0, %(root)r)
+from bbverif.checks import c12
+r = c12.concrete_twin(%(spec)r, %(mode)r, %(vals)r, %(idxs)r)
+if r is None:
+    print("outcome is independent of the earlier load"); sys.exit(0)
+print(r["text"]); print("observed:", r["observed"]); print("expected:", r["expected"]); sys.exit(1)
+"""
+
+
+def twin_specs(tier, seed):
+    from . import c05, c06, c08, c15
+    specs = [("extra", i) for i in range(len(EXTRA))]
+    c2 = c02.gen_specs("quick", seed)
+    specs += [("c02", s) for s in c2[::(40 if tier == "quick" else 8)]]
+    specs += [("c05", s) for s in c05.gen_specs("quick", seed)[::(60 if tier == "quick" else 12)]]
+    specs += [("c06", s) for s in c06.gen_specs("quick", seed) if s[3] in ("index", "args") and not s[4] and s[5] == "none"][::(4 if tier == "quick" else 1)]
+    specs += [("c08", s) for s in c08.gen_specs("quick", seed)[::(6 if tier == "quick" else 1)]]
+    specs += [("c15", s) for s in list(c15.SCRIPTS)[::(4 if tier == "quick" else 1)]]
+    if tier == "quick":      # two of the four twin modes per script, rotating
+        return [(s, m) for s in specs if s[0] == "extra" for m in TWIN_MODES] + [(s, TWIN_MODES[(i + j) % 4]) for i, s in enumerate(specs) if s[0] != "extra" for j in (0, 1)]
+    return [(s, m) for s in specs for m in TWIN_MODES]
+
+
 # ----------------------------------------------------------------------------- concrete histories with includes
 INC_OK = "name inc\nversion 1.0\n\nSgate(0.5) | 0\nBSgate | [0, 1]\n"
 INC_UNDEF = "name inc\nversion 1.0\n\nSgate(0.5) | 0\nDgate(undefined_name) | 1\n"
@@ -434,7 +714,13 @@ TMAIN_BAD = 'name main\nversion 1.0\ninclude "tinc.xbb"\n\ntinc(beta=0.5) | 2\n'
 TMAIN_OK = 'name main\nversion 1.0\ninclude "tinc.xbb"\n\ntinc(alpha=0.5) | 2\n'
 LOOPFAIL = "name l\nversion 1.0\n\nfloat keepme = 0.5\nfor int i in [0, 1]\n    Dgate(nope) | i\n"
 USESKEEP = "name u\nversion 1.0\ntarget X8 (shots=keepme)\n\nVac | 0\n"
-# steps: ('write', relpath, text) | ('load', relpath) | ('loads', text)
+INC_B2 = "name inc\nversion 1.0\n\nRgate(1.5) | 1\nVac | 0\n"
+GATES_A = "name gates\nversion 1.0\n\nSgate(0.1) | 0\n"
+GATES_B = "name gates\nversion 1.0\n\nSgate(0.7) | 0\nVac | 0\n"
+LIB = 'name lib\nversion 1.0\ninclude "gates.xbb"\n\ngates | 1\nBSgate | [0, 1]\n'
+LIB_B = 'name lib\nversion 1.0\ninclude "gates.xbb"\n\nBSgate | [1, 0]\ngates | 0\n'
+TOP = 'name top\nversion 1.0\ninclude "lib.xbb"\n\nlib | [2, 3]\n'
+# steps: ('write', relpath, text) | ('utime', relpath, seconds) | ('chdir', reldir) | ('load', relpath | 'rel:'+path relative to the cwd) | ('loads', text)
 HISTORIES = {
     "include_fails_then_same_again": [("write", "inc.xbb", INC_UNDEF), ("write", "main.xbb", MAIN), ("load", "main.xbb"), ("load", "main.xbb")],
     "include_fails_then_repaired": [("write", "inc.xbb", INC_UNDEF), ("write", "main.xbb", MAIN), ("load", "main.xbb"), ("write", "inc.xbb", INC_OK), ("load", "main.xbb"), ("load", "main.xbb")],
@@ -451,6 +737,20 @@ HISTORIES = {
                                                  ("loads", "name z\nversion 1.0\n\nDgate(1/0.0, sqrt(-1)) | 0\n"), ("loads", "name s\nversion 1.0\n\nDgate(log(0)) | 0\n")],
     "failing_expression_kinds_then_valid": [("loads", "name a\nversion 1.0\n\nDgate(2**-1) | 0\n"), ("loads", "name b\nversion 1.0\n\nint n = 1+2j\n"), ("loads", "name c\nversion 1.0\n\nVac | 0.5\n"),
                                             ("loads", "name d\nversion 1.0\n\nfloat array A[3, 3] =\n    1, 2\n"), ("loads", "name e\nversion 1.0\n\nDgate(4/(1+1), 2**3, sqrt(16)) | 0\nfor int i in 0:2\n    Vac | i\n")],
+    # files behind include chains change between loads; modification times preserved or going backwards; same relative path in another directory
+    "nested_innermost_rewritten": [("write", "gates.xbb", GATES_A), ("write", "lib.xbb", LIB), ("write", "top.xbb", TOP), ("load", "top.xbb"), ("write", "gates.xbb", GATES_B), ("load", "top.xbb"),
+                                   ("load", "lib.xbb"), ("write", "gates.xbb", GATES_A), ("load", "top.xbb")],
+    "nested_middle_rewritten": [("write", "gates.xbb", GATES_A), ("write", "lib.xbb", LIB), ("write", "top.xbb", TOP), ("load", "top.xbb"), ("write", "lib.xbb", LIB_B), ("load", "top.xbb")],
+    "include_rewritten_same_mtime": [("write", "inc.xbb", INC_OK), ("utime", "inc.xbb", 1000000000), ("write", "main.xbb", MAIN), ("utime", "main.xbb", 1000000000), ("load", "main.xbb"),
+                                     ("write", "inc.xbb", INC_B2), ("utime", "inc.xbb", 1000000000), ("load", "main.xbb"),
+                                     ("write", "main.xbb", MAIN2), ("utime", "main.xbb", 1000000000), ("load", "main.xbb")],
+    "replaced_by_older_files": [("write", "inc.xbb", INC_OK), ("utime", "inc.xbb", 1500000000), ("write", "main.xbb", MAIN), ("utime", "main.xbb", 1500000000), ("load", "main.xbb"),
+                                ("write", "inc.xbb", INC_B2), ("utime", "inc.xbb", 1200000000), ("load", "main.xbb"), ("write", "main.xbb", MAIN2), ("utime", "main.xbb", 1100000000), ("load", "main.xbb")],
+    "same_relative_path_in_two_directories": [("write", "a/inc.xbb", INC_OK), ("write", "a/main.xbb", MAIN), ("write", "b/inc.xbb", INC_B2), ("utime", "b/inc.xbb", 1000000000),
+                                              ("write", "b/main.xbb", MAIN2), ("utime", "b/main.xbb", 1000000000),
+                                              ("chdir", "a"), ("load", "rel:main.xbb"), ("chdir", "b"), ("load", "rel:main.xbb"), ("chdir", "a"), ("load", "rel:main.xbb")],
+    "plain_script_rewritten_same_mtime": [("write", "job.xbb", USESKEEP.replace("keepme", "5")), ("utime", "job.xbb", 1000000000), ("load", "job.xbb"),
+                                          ("write", "job.xbb", "name other\nversion 1.0\n\nDgate(0.5) | 1\n"), ("utime", "job.xbb", 1000000000), ("load", "job.xbb")],
     "strings_then_files": [("loads", LOOPFAIL), ("write", "inc.xbb", INC_OK), ("write", "main.xbb", MAIN), ("load", "main.xbb"), ("loads", USESKEEP)],
 }
 
@@ -465,11 +765,21 @@ os.chdir(root)
 out = []
 for st in steps:
     if st[0] == "write":
+        os.makedirs(os.path.dirname(os.path.join(root, st[1])), exist_ok=True)
         with open(os.path.join(root, st[1]), "w") as fh:
             fh.write(st[2])
         continue
+    if st[0] == "utime":
+        os.utime(os.path.join(root, st[1]), (st[2], st[2]))
+        continue
+    if st[0] == "chdir":
+        os.chdir(os.path.join(root, st[1]))
+        continue
     try:
-        p = blackbird.load(os.path.join(root, st[1])) if st[0] == "load" else blackbird.loads(st[1])
+        if st[0] == "load":
+            p = blackbird.load(st[1][4:] if st[1].startswith("rel:") else os.path.join(root, st[1]))
+        else:
+            p = blackbird.loads(st[1])
         out.append(["program", repr(_snap.program(p))])
     except Exception as e:
         out.append(["exception", type(e).__name__, str(e).replace(root, "<dir>")])
@@ -500,10 +810,10 @@ def run_history_steps(steps, pristine_each):
         return run(steps)
     res = []
     for k, st in enumerate(steps):
-        if st[0] == "write":
+        if st[0] not in ("load", "loads"):
             continue
-        # same files as at this point of the history, but only this one load in the process
-        writes = [s for s in steps[:k] if s[0] == "write"]
+        # same files (and working directory) as at this point of the history, but only this one load in the process
+        writes = [s for s in steps[:k] if s[0] not in ("load", "loads")]
         res.append(run(writes + [st])[-1])
     return res
 
@@ -512,7 +822,7 @@ def history_case(name):
     steps = HISTORIES[name]
     hist = run_history_steps(steps, False)
     prist = run_history_steps(steps, True)
-    loads_ = [s for s in steps if s[0] != "write"]
+    loads_ = [s for s in steps if s[0] in ("load", "loads")]
     for k, (a, b) in enumerate(zip(hist, prist)):
         if a != b:
             return {"text": "history %s: %r" % (name, [(s[0], s[1][:40]) for s in steps]), "values": [name], "pre": [],
@@ -522,7 +832,7 @@ def history_case(name):
 
 
 def run_history(name):
-    out = {"spec": ("hist", name), "result": "holds", "paths": 1, "stats": None, "funcs": [], "reach": 1, "validated": len([s for s in HISTORIES[name] if s[0] != "write"]),
+    out = {"spec": ("hist", name), "result": "holds", "paths": 1, "stats": None, "funcs": [], "reach": 1, "validated": len([s for s in HISTORIES[name] if s[0] in ("load", "loads")]),
            "text": "concrete history %s" % name, "name": "history " + name}
     r = history_case(name)
     if r:
@@ -576,14 +886,27 @@ def main():
         "a successful load leaves both tables empty (exitProgram clears them) - checked on the pristine runs",
         "no other module-level mutable state exists (AST scan on every run; a new one makes the check inconclusive)",
         "iteration over a havoc table yields only the entries materialised so far (under-approximation, relevant only before the first clear)",
-        "state outside the two tables (e.g. a new module-level container) is not havoc'ed: it is covered only by the concrete include/failure histories (each load vs the same load alone in a fresh process) and flagged by the AST scan",
+        "state outside the two tables (e.g. a new module-level container) is not havoc'ed: it is covered by the twin loads (symbolic values of both loads; the first load is a twin of the second, "
+        "so only leaks between scripts of one shape are in the claim), by the concrete file histories (each load vs the same load alone in a fresh process), and flagged by the AST scan",
+        "twin loads: loop trip counts <= 2; native twin runs depend on the allocator / hash behaviour of this CPython build (a leak keyed by object identity shows only if addresses are reused)",
     ]
     static_state_scan(rep)
     specs = gen_specs(t, common.seed())
-    results = U.run_parallel(run_spec, specs) + U.run_parallel(run_history, list(HISTORIES))
+    tw = twin_specs(t, common.seed())
+    tres = U.run_parallel(run_twin, tw)
+    native_twins(tres)
+    results = U.run_parallel(run_spec, specs) + U.run_parallel(run_history, list(HISTORIES)) + tres
+    rep.bounds["twin loads"] = "%d (script, twin mode) pairs; modes %s" % (len(tw), TWIN_MODES)
+
+    def replay_fn(r):
+        if r["spec"][0] == "hist":
+            return REPLAY_HIST % {"root": common.ROOT, "name": r["spec"][1]}
+        if r["spec"][0] == "twin":
+            return REPLAY_TWIN % {"root": common.ROOT, "spec": r["spec"][1], "mode": r["spec"][2], "vals": r["cex"]["values"], "idxs": r["cex"]["pre"][1]}
+        return REPLAY % {"root": common.ROOT, "spec": r["spec"], "vals": r["cex"]["values"], "pre": r["cex"]["pre"]}
+
     U.collect(rep, results, key_fn=lambda r: _script.default_key(r),
-              replay_fn=lambda r: (REPLAY_HIST % {"root": common.ROOT, "name": r["spec"][1]}) if r["spec"][0] == "hist" else
-              REPLAY % {"root": common.ROOT, "spec": r["spec"], "vals": r["cex"]["values"], "pre": r["cex"]["pre"]},
+              replay_fn=replay_fn,
               sample_fn=lambda r: {"script": r["text"], "paths": r["paths"], "havoc_forks": r.get("havoc_forks")})
     rep.extra["havoc_forks"] = sum(r.get("havoc_forks", 0) for r in results)
     return rep.finish()
